@@ -8,7 +8,7 @@ from harness import zones as Z
 
 ID = "C03"
 BACKENDS = ("py", "rs")
-GEN_MODULES = ("Tables", "Helpers")
+GEN_MODULES = ("Tables", "Helpers", "AddDuration")
 MIN_THEOREMS = 9
 US = D.US
 YMAX = Z.YMAX_QUICK
